@@ -596,6 +596,7 @@ pub fn gen_case(rng: &mut Rng) -> Case {
             .collect(),
         short_writes: false,
         exit_lag: *rng.pick(&[0u64, 0, 0, 1, 3, 50]),
+        read_max: *rng.pick(&[0usize, 0, 0, 1, 3, 1000, 8191, 8193]),
     };
     let tiny = proc.stdin_cap < 64 || proc.stdout_cap < 64 || proc.chunk < 64;
     let shader = if tiny || rng.chance(500) {
@@ -914,6 +915,7 @@ pub fn systematic_cases() -> Vec<Case> {
                             parent_costs: parent_costs.clone(),
                             short_writes: false,
                             exit_lag: if cap == 64 { 0 } else { 2 },
+                            read_max: if *op_cost == 3 { 4097 } else { 0 },
                         },
                     });
                 }
@@ -1029,9 +1031,10 @@ pub fn minimise(case: &Case, class: &str, cache: &RefCache) -> (Case, u32) {
 
     // 3. knobs to their defaults
     let defaults = ProcPlan::well_behaved();
-    for knob in 0..5 {
+    for knob in 0..6 {
         let mut cand = best.clone();
         match knob {
+            5 => cand.proc.read_max = 0,
             0 => cand.proc.stdin_cap = defaults.stdin_cap,
             1 => cand.proc.stdout_cap = defaults.stdout_cap,
             2 => cand.proc.chunk = defaults.chunk,
@@ -1537,7 +1540,7 @@ pub fn main(tier: Tier) -> i32 {
         .and_then(|s| s.parse().ok())
         .unwrap_or(match tier {
             Tier::Quick => 4000,
-            Tier::Thorough => 400_000,
+            Tier::Thorough => 1_500_000,
         });
     let random = run_batch(&|i| case_for_run(seed, i), n_random, &cache);
 
